@@ -64,7 +64,7 @@ PROPS['C16'] = {'level': 'proof', 'theorems': [], 'campaigns': [camp('staking', 
 PROPS['C17'] = {'level': 'proof', 'theorems': [], 'campaigns': [camp('staking', 24, 200)]}
 PROPS['C18'] = {'level': 'proof', 'theorems': [], 'campaigns': [camp('staking', 24, 200), camp('ledger', 8, 100)]}
 PROPS['C19'] = {'level': 'proof', 'theorems': [], 'campaigns': [camp('staking', 24, 200), camp('ledger', 8, 100)]}
-PROPS['C20'] = {'level': 'proof', 'theorems': [], 'campaigns': [camp('governance', 32, 300), camp('staking', 8, 100)]}
+PROPS['C20'] = {'level': 'proof', 'theorems': [], 'campaigns': [camp('governance', 32, 300), camp('staking', 8, 100), camp('govrestart', 8, 60)]}
 
 for _p in []:   # C06, C15, C22: tx builder block below; C27: rules builder block below
     PROPS[_p] = {'level': 'proof', 'theorems': [], 'campaigns': [camp('checktx', 12, 100), camp('orders', 12, 100), camp('ledger', 8, 100)]}
@@ -341,20 +341,21 @@ PROPS['C13']['theorems'] = PROPS['C13']['theorems'] + ['Minter.Lob.orderStep_K',
 PROPS['C13']['modes'] = PROPS['C13'].get('modes', []) + [ORD_MODE]
 PROPS['C14'] = {
     'level': 'proof', 'registered': False,
-    'modules': ['MinterProofs.Props.C14'],
+    'modules': ['MinterProofs.Props.C14', 'MinterModel.Monitors'],
     'theorems': ['Minter.Lob.ratInt_eq_ediv', 'Minter.Lob.partialSellAmount_eq', 'Minter.Lob.partialBuyAmounts_eq',
                  'Minter.Lob.sell_fills', 'Minter.Lob.buy_fills', 'Minter.Lob.fill_at_own_price', 'Minter.Lob.partial_keeps_price',
                  'Minter.Lob.sortBook_sorted', 'Minter.Lob.sortBook_perm', 'Minter.Lob.priority_sell', 'Minter.Lob.priority_buy',
                  'Minter.Lob.Consumed.forall₂', 'Minter.Lob.Consumed.not_last_full', 'Minter.Lob.credits_exact',
                  'Minter.Lob.dust_closed_refund', 'Minter.Lob.partial_stays', 'Minter.Lob.cancel_exact', 'Minter.Lob.cancel_owner_only',
-                 'Minter.Lob.cancel_once', 'Minter.Lob.cancel_returns_unfilled', 'Minter.Lob.expire_exact', 'Minter.Lob.expire_once'],
+                 'Minter.Lob.cancel_once', 'Minter.Lob.cancel_returns_unfilled', 'Minter.Lob.expire_exact', 'Minter.Lob.expire_once',
+                 'Minter.orderPriorityMonitor_silent'],
     'campaigns': [camp('orders', 24, 200), camp('orders', 8, 24, extra=['-histblocks', '64'])],   # 64 blocks: order expiry is reached on the node
     'modes': ORD_REPLAYS + [ORD_MODE],
     'assumptions': ['RN53 (the correctly rounded big.Float quotient behind the sort key) is differential-tested against the real CalcPriceSell and big.Rat.Float64, not proved against a real-number specification',
                     'CalculateAddAmountsForPrice (amount0 of a curve step towards an order price) is an oracle: the theorems hold for every answer; the harness passes the real function\'s answers',
                     'the RemoveLimitOrder handler\'s owner check is modelled by reading; the swap-level PairRemoveLimitOrder is tied; an order added in the current block cannot be cancelled before Commit (not in the model)',
                     'reserves <= 0 and negative volumes are outside the model\'s domain (hypotheses of the theorems)'],
-    'claim_draft': "Lean theorems about the order-book model (MinterModel/Orders.lean, namespace Lob: abstract book = list of orders, none of the Go caches; sell/buy walk by structural recursion over the best-first list; every Go panic site a Fault value), for all books with positive volumes, reserves, amounts and oracle answers: the big.Float detour of a partial fill is exact, SetRat(n/d).Int() = floor(n/d), so all clamp branches and both 'negative' panics of the partial fill are dead code (ratInt_eq_ediv, partialSellAmount_eq, partialBuyAmounts_eq); every fill of a successful trade is a fill of a prefix of the best-first list, position by position, every fill but the last is complete (sell_fills, buy_fills, Consumed.forall₂, Consumed.not_last_full), the list is the whole book ordered by float53 price key then id (sortBook_perm, sortBook_sorted, priority_sell, priority_buy); an owner never pays more than his price up to < 1 unit of the coin he buys, and a partial fill keeps the remaining price within one unit (fill_at_own_price, partial_keeps_price); each owner is credited exactly the sum of his fills (credits_exact); a remainder below 10^10 on either side closes the order and refunds exactly the remainder, otherwise it stays with the reduced volumes (dust_closed_refund, partial_stays); cancel refunds exactly the current volume to the owner only, once, and after a partial fill returns the unfilled part; expiry removes exactly the orders that are old enough, once (cancel_exact, cancel_owner_only, cancel_once, cancel_returns_unfilled, expire_exact, expire_once). Tie: mode orders drives the real SwapV2 (PairSellWithOrders / PairBuyWithOrders / PairAddOrder / PairRemoveLimitOrder / ExpireOrders, commits and fresh instances in between, both sides of a pool, books of up to 12 000 orders in thorough) against the Lean walk (Q sellwo buywo cancelwo expirewo sortbook rn53 ratint) plus Go-side monitors (priority, conservation, dust, refunds, on-disk price key order); the minimal inputs of the repaired findings F-ORD-1 (cold order list: orders invisible after a cancel in the same block, duplicate ids, endless loop) and F-ORD-2 (partial-fill re-sort against a partly loaded list), /repo fa48978, are replayed first on every run (corpus/orders/*.history); node level: campaign orders. Partial: see assumptions (RN53 tested not proved; curve-step oracle; handler owner check by reading).",
+    'claim_draft': "Lean theorems about the order-book model (MinterModel/Orders.lean, namespace Lob: abstract book = list of orders, none of the Go caches; sell/buy walk by structural recursion over the best-first list; every Go panic site a Fault value), for all books with positive volumes, reserves, amounts and oracle answers: the big.Float detour of a partial fill is exact, SetRat(n/d).Int() = floor(n/d), so all clamp branches and both 'negative' panics of the partial fill are dead code (ratInt_eq_ediv, partialSellAmount_eq, partialBuyAmounts_eq); every fill of a successful trade is a fill of a prefix of the best-first list, position by position, every fill but the last is complete (sell_fills, buy_fills, Consumed.forall₂, Consumed.not_last_full), the list is the whole book ordered by float53 price key then id (sortBook_perm, sortBook_sorted, priority_sell, priority_buy); an owner never pays more than his price up to < 1 unit of the coin he buys, and a partial fill keeps the remaining price within one unit (fill_at_own_price, partial_keeps_price); each owner is credited exactly the sum of his fills (credits_exact); a remainder below 10^10 on either side closes the order and refunds exactly the remainder, otherwise it stays with the reduced volumes (dust_closed_refund, partial_stays); cancel refunds exactly the current volume to the owner only, once, and after a partial fill returns the unfilled part; expiry removes exactly the orders that are old enough, once (cancel_exact, cancel_owner_only, cancel_once, cancel_returns_unfilled, expire_exact, expire_once). Tie: mode orders drives the real SwapV2 (PairSellWithOrders / PairBuyWithOrders / PairAddOrder / PairRemoveLimitOrder / ExpireOrders, commits and fresh instances in between, both sides of a pool, books of up to 12 000 orders in thorough) against the Lean walk (Q sellwo buywo cancelwo expirewo sortbook rn53 ratint) plus Go-side monitors (priority, conservation, dust, refunds, on-disk price key order); the minimal inputs of the repaired findings F-ORD-1 (cold order list: orders invisible after a cancel in the same block, duplicate ids, endless loop) and F-ORD-2 (partial-fill re-sort against a partly loaded list), /repo fa48978, are replayed first on every run (corpus/orders/*.history); node level: campaign orders with the priority monitor of the driver (orderPriorityMonitor, sound by orderPriorityMonitor_silent: after every delivered transaction of the real node, fee exchange included, no order that was left untouched asks a better price, by more than the 2^-40 the 53-bit sort key can blur, than an order of the same side of the same pool that was filled). Partial: see assumptions (RN53 tested not proved; curve-step oracle; handler owner check by reading).",
 }
 
 
